@@ -50,6 +50,16 @@ def handle : String → Handler
         showRat (supportProb P p g), showRats (alleleFreqs P p), showRats (alleleCounts P p),
         showRats (alleleOccur P p), showRats (exactJoint P p)])
     | _ => none
+  | "call.compound", toks => do
+    -- <ploidy> <genotype…> <order…> <choices…>
+    match toks with
+    | n :: rest =>
+      let n ← parseNat? n
+      let xs ← parseNats? rest
+      if xs.length = 3 * n then
+        some (showNats (compoundStep (xs.take n) ((xs.drop n).take n) (xs.drop (2 * n))))
+      else none
+    | _ => none
   | "call.sort", toks => do
     let a ← parseNats? toks
     some (showNats (sortAlleles a))
